@@ -974,7 +974,9 @@ impl Sim {
                     self.v(&["C11"], "code_id", format!("store_code returned id {} expected {}", got, exp));
                     return false;
                 }
+                self.world.0.borrow_mut().plan_suspended = true;
                 let info = self.app.wrap().query_wasm_code_info(got);
+                self.world.0.borrow_mut().plan_suspended = false;
                 let checksum = match info {
                     Ok(i) => {
                         if i.creator.as_str() != creator_addr {
@@ -1026,7 +1028,10 @@ impl Sim {
                     self.v(&["C11"], "code_id", format!("duplicate_code({}) returned id {} expected {}", id, got, max_id + 1));
                     return false;
                 }
-                match self.app.wrap().query_wasm_code_info(got) {
+                self.world.0.borrow_mut().plan_suspended = true;
+                let dup_info = self.app.wrap().query_wasm_code_info(got);
+                self.world.0.borrow_mut().plan_suspended = false;
+                match dup_info {
                     Ok(i) => {
                         if i.checksum.to_hex() != src.checksum || i.creator.as_str() != src.creator {
                             self.v(&["C11"], "code_info", format!("duplicate {} of code {} has another checksum or creator", got, id));
